@@ -179,7 +179,266 @@ class Telescoping(Lemma):
                          Lm(of + 1) == MU(h / 4, h / 2), R(of - 1) == MU(-h / 2, -h / 4)))
 
 
-UNITS = [ProbabilityToRight(), CouplingState(), Telescoping()]
+class DiffusionCoupling(FunctionContract):
+    """simulate_diffusion_with_coupling: fine and coarse diffusion paths are the running sums of the SAME Brownian
+    increments scaled by the fine / coarse coefficient (fixed-dates variant, n increments, n <= 3)."""
+    prop = "C03"
+    target = CM + "CouplingSimulation.simulate_diffusion_with_coupling"
+    name = "CouplingSimulation.simulate_diffusion_with_coupling"
+    cases = (1, 2, 3)
+
+    def setup(self, vc, n):
+        import collections
+        w = np.array(vc.reals("w", n), dtype=object)
+        other = np.array(vc.reals("w_next_path", n), dtype=object)
+        dq = collections.deque([w, other])
+        ef, ec = vc.real("coef_fine"), vc.real("coef_coarse")
+        sq = np.array(vc.reals("sqrt_dt", n), dtype=object)
+        sim = vc.obj("rpylib.process.markovchain.markovchain:MCSimulationFixedTimes", _brownian_increments=dq)
+        fine = vc.obj("rpylib.process.markovchain.markovchain:MarkovChainProcess", _path_simulation=sim)
+        cp = vc.obj(CM + "CouplingMarkovChain", fine_process=fine, equivalent_diffusion_coefficient_fine=ef, equivalent_diffusion_coefficient_coarse=ec)
+        vc.ghost.update(w=w, ef=ef, ec=ec, sq=sq, dq=dq, other=other)
+        return dict(self=vc.obj(CM + "CouplingSimulation", coupling_process=cp), sqrt_dts=sq)
+
+    def ensures(self, result, self_=None, sqrt_dts=None):
+        from pyvc import ctx
+        g = ctx.PATH.ghost
+        w, ef, ec, sq = g["w"], g["ef"], g["ec"], g["sq"]
+        f, c = result
+        n = len(w)
+        run_f = [sum((sq[i] * ef * w[i] for i in range(k + 1)), 0) for k in range(n)]
+        run_c = [sum((sq[i] * ec * w[i] for i in range(k + 1)), 0) for k in range(n)]
+        return {"fine-is-running-sum-with-fine-coefficient": And(*[f[k] == run_f[k] for k in range(n)]),
+                "coarse-is-running-sum-of-the-same-increments-with-coarse-coefficient": And(*[c[k] == run_c[k] for k in range(n)]),
+                "one-pre-drawn-row-consumed": (len(g["dq"]) == 1) and (g["dq"][0] is g["other"])}
+
+
+class NextLevel(FunctionContract):
+    """CouplingMarkovChain.next_level: the coarse coefficient becomes the fine coefficient of the level just left, the
+    grid is refined exactly once BEFORE the new fine chain is built on it, the level counter advances, and the frozen
+    coarse deterministic path is the affine function through the old fine path's values at t=0 and t=1."""
+    prop = "C03"
+    target = CM + "CouplingMarkovChain.next_level"
+    name = "CouplingMarkovChain.next_level"
+    cases = ("no-path-manager", "with-path-manager")
+
+    def configure(self, interp):
+        from pyvc import ctx
+        MCP = "rpylib.process.markovchain.markovchain:MarkovChainProcess."
+        log = lambda ev: ctx.PATH.ghost.setdefault("log", []).append(ev)
+
+        def new_chain(it, f, b):
+            log(("new-fine-chain", b["grid"], b["model"], b["method"], ctx.PATH.ghost.get("refined", 0)))
+            b["self"].fields.update(equivalent_diffusion_coefficient=ctx.PATH.ghost["E_new"], grid=b["grid"], tag="new", process_representation=None)
+        interp.hooks[MCP + "__init__"] = new_chain
+        interp.hooks["rpylib.grid.spatial:CTMCGrid.refine"] = lambda it, f, b: (ctx.PATH.ghost.update(refined=ctx.PATH.ghost.get("refined", 0) + 1), log(("refine", b["self"])))[1]
+        interp.hooks[CM + "CouplingMarkovChain.initialisation"] = lambda it, f, b: log(("initialisation", b["self"].fields["fine_process"].fields.get("tag")))
+        interp.hooks[CM + "CouplingMarkovChain.pre_computation"] = lambda it, f, b: log(("pre_computation", b["mc_paths"]))
+
+        def det_path(it, f, b):
+            g = ctx.PATH.ghost
+            t = b["times"]
+            base, slope = (g["x0_old"], g["d_old"]) if b["self"].fields.get("tag") != "new" else (g["x0_new"], g["d_new"])
+            return it.lib.np_map(lambda x: base + slope * x, np.asarray(t, dtype=object) if not isinstance(t, np.ndarray) else t)
+        interp.hooks["rpylib.process.process:Process.deterministic_path"] = det_path
+        interp.hooks["rpylib.montecarlo.path:MCPath.update"] = lambda it, f, b: None
+
+    def setup(self, vc, case):
+        g = vc.ghost
+        E_old, E_new, lvl = vc.real("coef_fine_old"), vc.real("coef_fine_new"), vc.int("level")
+        g.update(E_new=E_new, E_old=E_old, lvl=lvl, x0_old=vc.real("x0"), d_old=vc.real("drift_old"), x0_new=vc.real("x0_new"), d_new=vc.real("drift_new"))
+        grid = vc.obj(SP + "CTMCGrid")
+        old_fine = vc.obj("rpylib.process.markovchain.markovchain:MarkovChainProcess", equivalent_diffusion_coefficient=E_old, tag="old",
+                          process_representation=None)
+        model = vc.obj(LM + "LevyModel")
+        method = vc.enum("rpylib.distribution.sampling:SamplingMethod", "INVERSION")
+        cp = vc.obj(CM + "CouplingMarkovChain", level=lvl, grid=grid, model=model, method=method, fine_process=old_fine,
+                    equivalent_diffusion_coefficient_fine=E_old, equivalent_diffusion_coefficient_coarse=vc.real("coef_coarse_old"))
+        pms = None
+        if case == "with-path-manager":
+            pm = vc.obj("rpylib.montecarlo.path:MCPath", deterministic_path=None)
+            pms = [pm]
+        g.update(grid=grid, pms=pms, model=model, method=method)
+        product = vc.obj("rpylib.product.product:Product")
+        return dict(self=cp, mc_paths=vc.int("mc_paths"), path_managers=pms, product=product, max_step_epsilon=None)
+
+    def ensures(self, result, self_=None, path_managers=None, **kw):
+        from pyvc import ctx
+        g = ctx.PATH.ghost
+        f = self_.fields
+        log = g.get("log", [])
+        kinds = [e[0] for e in log]
+        out = {"level-advances": f["level"] == g["lvl"] + 1,
+               "coarse-coefficient-is-the-previous-fine-coefficient": f["equivalent_diffusion_coefficient_coarse"] == g["E_old"],
+               "fine-coefficient-is-the-new-chain's": f["equivalent_diffusion_coefficient_fine"] == g["E_new"],
+               "grid-refined-exactly-once-before-the-new-chain-is-built": kinds.count("refine") == 1 and kinds.count("new-fine-chain") == 1
+               and kinds.index("refine") < kinds.index("new-fine-chain") and log[kinds.index("refine")][1] is g["grid"],
+               "new-chain-on-the-refined-grid-same-model-and-method": any(e[0] == "new-fine-chain" and e[1] is g["grid"] and e[2] is g["model"] and e[3] is g["method"] for e in log),
+               "new-chain-initialised-and-pre-computed": ("initialisation", "new") in log and kinds.count("pre_computation") == 1 and kinds.index("initialisation") > kinds.index("new-fine-chain")}
+        if path_managers is not None:
+            ok = len(path_managers) == 2
+            out["one-path-manager-appended"] = ok
+            if ok:
+                t = ctx.PATH.fresh("t", "r")
+                it = ctx.INTERP
+                both = it.call(path_managers[-1].fields["deterministic_path"], [np.array([t], dtype=object)], {})
+                out["fine-component-is-the-new-chain's-path"] = both[0][0] == g["x0_new"] + g["d_new"] * t
+                out["coarse-component-is-the-previous-level's-path-frozen"] = both[1][0] == g["x0_old"] + g["d_old"] * t
+        return out
+
+
+CL = "rpylib.process.coupling.couplinglevycopula:"
+MFULL = z3.Function("MASS2", *([z3.RealSort()] * 5))
+MMARG = {k: z3.Function(f"MASS_margin{k}", z3.RealSort(), z3.RealSort(), z3.RealSort()) for k in (0, 1)}
+
+
+def mass2(a, b):
+    return Sym(MFULL(*[as_real_term(lift(x)) for x in (a[0], a[1], b[0], b[1])]), "r")
+
+
+class CopulaCouplingState(FunctionContract):
+    """CouplingLevyCopulaSimulation.__coupling_state, d = 2, by parity of the fine increment: all-even -> the state is
+    copied; otherwise the coarse state is chosen, as a function of the coupling uniform, with probability
+    (mass of the part of the FINE CELL that belongs to that coarse state's cell) / (mass of the fine cell), the masses being
+    those of the joint measure -- which is what makes the coarse path follow the previous level's law."""
+    prop = "C03"
+    target = CL + "CouplingLevyCopulaSimulation.__coupling_state"
+    cases = ("even-even", "odd-odd", "even-odd", "odd-even")
+    raises = {"ZeroDivisionError": lambda **a: True, "ValueError": lambda **a: True}
+    raises_exact = False
+
+    def __init__(self):
+        self.name = "CouplingLevyCopulaSimulation.__coupling_state"
+        self.target = CL + "CouplingLevyCopulaSimulation._CouplingLevyCopulaSimulation__coupling_state"
+
+    def configure(self, interp):
+        from pyvc import ctx
+        interp.hooks["rpylib.distribution.univariate.uniform:Uniform.sample"] = lambda it, f, b: ctx.PATH.ghost["u"]
+
+    def setup(self, vc, case):
+        from pyvc.lib import Model
+        from pyvc import ctx
+        grid, ax, h, o = wf_grid(vc, d=2, quantified=False)      # explicit instances of the ordering below
+        inc = vc.ints("increment", 2)
+        u = vc.real("coupling_uniform")
+        par = {"even": 0, "odd": 1}
+        want = [par[x] for x in case.split("-")]
+        ps = [o + i for i in inc]
+        vc.assume(And(o % 2 == 0, ax.length % 2 == 1, u >= 0, u <= 1, *[And(p >= 1, p <= ax.length - 2, p % 2 == w) for p, w in zip(ps, want)]))
+        for p_ in ps:
+            for j in (p_ - 1, p_):
+                vc.assume(ax.raw(j) < ax.raw(j + 1))
+
+        def mass(interp, a, b, indices=None):
+            a, b = tuple(a), tuple(b)
+            idx = list(indices) if indices is not None else [0, 1]
+            ctx.PATH.check("__coupling_state -> mass::requires(a<=b)", And(*[x <= y for x, y in zip(a, b)]))
+            if len(idx) == 2:
+                return mass2(a, b)
+            k = idx[0]
+            return Sym(MMARG[k](as_real_term(lift(a[0])), as_real_term(lift(b[0]))), "r")
+        model = vc.obj("rpylib.model.levycopulamodel:LevyCopulaModel", mass=Model(mass, "abstract-copula-mass"))
+        cp = vc.obj(CL + "CouplingProcessLevyCopula", grid=grid, model=model, _uniform=vc.obj("rpylib.distribution.univariate.uniform:Uniform"))
+        vc.ghost.update(ax=ax, o=o, u=u, ps=ps, case=case)
+        return dict(self=vc.obj(CL + "CouplingLevyCopulaSimulation", coupling_process=cp), increment=tuple(inc))
+
+    def ensures(self, result, self_=None, increment=None, **kw):
+        from pyvc import ctx
+        g = ctx.PATH.ghost
+        ax, ps, u, case = g["ax"], g["ps"], g["u"], g["case"]
+        x = [ax.raw(p) for p in ps]
+        lo = [cell_lo(ax, p) for p in ps]
+        hi = [cell_hi(ax, p) for p in ps]
+        res = list(result) if isinstance(result, (tuple, np.ndarray)) else None
+        if res is None or len(res) != 2:
+            return {"two-coordinates": False}
+        cell = mass2(lo, hi)
+        out = {}
+        if case == "even-even":
+            out["coarse-grid-states-are-copied-unchanged"] = And(res[0] == x[0], res[1] == x[1])
+            return out
+        odd = [k for k, w in enumerate(case.split("-")) if w == "odd"]
+        even = [k for k in (0, 1) if k not in odd]
+        for k in even:
+            out[f"coordinate{k}-on-the-coarse-grid-is-kept"] = res[k] == x[k]
+        for k in odd:
+            out[f"coordinate{k}-moves-to-an-adjacent-coarse-state"] = Or(res[k] == ax.raw(ps[k] - 1), res[k] == ax.raw(ps[k] + 1))
+        # the first alternative tried by the code is the all-(-1) neighbour: its share of the FINE CELL's joint mass
+        a = [lo[k] if k in even else lo[k] for k in (0, 1)]
+        b = [hi[k] if k in even else x[k] for k in (0, 1)]
+        share = mass2(a, b)
+        first = And(*[res[k] == ax.raw(ps[k] - 1) for k in odd])
+        out["first-neighbour-chosen-with-its-share-of-the-fine-cell's-joint-mass"] = Implies(cell > 0, first == (u * cell <= share))
+        return out
+
+    def replay(self, model, clause, case):
+        # native: real __coupling_state on a refined 2-d grid with Clayton-coupled HEM margins; the probability of the first
+        # neighbour is measured by bisection on the coupling uniform and compared with the joint-mass share
+        from types import SimpleNamespace
+        from contracts import battery
+        from rpylib.grid.spatial import CTMCUniformGrid
+        from rpylib.process.coupling.couplinglevycopula import CouplingLevyCopulaSimulation
+        cm = battery.copula_model(2, "clayton")
+        grid = CTMCUniformGrid.create_from_fixed_nb_of_points(h=0.1, nb_of_points=7, dimension=2)
+        grid.refine()
+        ax, o = grid.axes[0], grid.origin_coordinate.value[0]
+
+        class U:
+            def __init__(self):
+                self.u = 0.5
+
+            def sample(self):
+                return self.u
+        uni = U()
+        sim = CouplingLevyCopulaSimulation.__new__(CouplingLevyCopulaSimulation)
+        sim.coupling_process = SimpleNamespace(grid=grid, model=cm, _uniform=uni)
+        f = getattr(sim, "_CouplingLevyCopulaSimulation__coupling_state")
+        want_par = [0 if w == "even" else 1 for w in case.split("-")]
+        worst = None
+        for inc in ((2, 3), (3, 2), (3, 3), (-2, 3), (3, -2), (-3, -3), (2, -3), (4, 1), (1, 4), (2, 2)):
+            if [i % 2 for i in inc] != want_par:
+                continue
+            ps = [o + i for i in inc]
+            x = [ax[p] for p in ps]
+            lo = [0.5 * (ax[p - 1] + ax[p]) for p in ps]
+            hi = [0.5 * (ax[p] + ax[p + 1]) for p in ps]
+            odd = [k for k in (0, 1) if want_par[k]]
+            if not odd:
+                uni.u = 0.3
+                r = f(tuple(inc))
+                if tuple(float(v) for v in r) != tuple(float(v) for v in x):
+                    return (True, {"increment": inc, "native": [float(v) for v in r], "state": x})
+                continue
+            first = [ax[ps[k] - 1] if k in odd else x[k] for k in (0, 1)]
+            a_, b_ = 0.0, 1.0
+            for _ in range(40):
+                uni.u = 0.5 * (a_ + b_)
+                r = f(tuple(inc))
+                if all(abs(float(r[k]) - first[k]) < 1e-12 for k in (0, 1)):
+                    a_ = uni.u
+                else:
+                    b_ = uni.u
+            p_code = 0.5 * (a_ + b_)
+            cell = cm.mass(a=tuple(lo), b=tuple(hi))
+            share = cm.mass(a=tuple(lo), b=tuple(hi[k] if k not in odd else x[k] for k in (0, 1)))
+            p_true = share / cell
+            info = {"increment": inc, "state": x, "P_code(first neighbour)": p_code, "joint-mass share": p_true}
+            if "share" in clause or "unsupported" in clause or "exception" in clause:
+                if abs(p_code - p_true) > 1e-6:
+                    return (True, info)
+            else:
+                for uu in (0.01, 0.3, 0.6, 0.99):
+                    uni.u = uu
+                    r = f(tuple(inc))
+                    kept = all(abs(float(r[k]) - x[k]) < 1e-12 for k in (0, 1) if k not in odd)
+                    adj = all(min(abs(float(r[k]) - ax[ps[k] - 1]), abs(float(r[k]) - ax[ps[k] + 1])) < 1e-12 for k in odd)
+                    if not (kept and adj):
+                        return (True, {**info, "u": uu, "native": [float(v) for v in r]})
+            worst = info
+        return (False, worst)
+
+
+UNITS = [ProbabilityToRight(), CouplingState(), Telescoping(), DiffusionCoupling(), NextLevel(), CopulaCouplingState()]
 ASSUMPTIONS = ["A1: floats are mathematical reals", "A6: the model's mass is an additive non-negative interval function (C09/C12)",
                "the fine grid is the refinement of the coarse grid (C13 contract of refine) and rates are cell masses (C01)",
                "expected-payoff telescoping E[P_l^coarse] = E[P_{l-1}^fine] follows from equal laws (not mechanised)"]
